@@ -155,6 +155,15 @@ def check(case, stats: Stats) -> None:
     conv = mk_converter_via({"delimiter": ":", "records": recs}, case.get("build", "at-once"))
     R = curies.reconciliation
     known_before = set(model.all_prefixes())
+    # what the INPUT contains (independent of which of several applicable errors the implementation reports first)
+    _ok = [id(model.owner(k)) for k in mapping if model.owner(k) is not None]
+    _ov = [id(model.owner(v)) for v in mapping.values() if model.owner(v) is not None]
+    if _has_cycle(mapping):
+        stats.cls("input:cycle")
+    if len(set(_ok)) != len(_ok):
+        stats.cls("input:two-keys-name-one-record")
+    if len(set(_ov)) != len(_ov):
+        stats.cls("input:two-values-name-one-record")
     try:
         out = curies.remap_curie_prefixes(conv, dict(mapping))
     except (R.DuplicateKeys, R.DuplicateValues, R.InconsistentMapping, R.CycleDetected) as e:
@@ -264,7 +273,7 @@ SUBS = [
         check=check,
         strategy=lambda tier: cases(tier),
         n={"quick": 2500, "thorough": 6000},
-        required_classes=("outcome:ok", "outcome:CycleDetected", "outcome:DuplicateKeys", "outcome:DuplicateValues", "outcome:InconsistentMapping",
+        required_classes=("outcome:ok", "input:cycle", "input:two-keys-name-one-record", "input:two-values-name-one-record",
                           "nt:chain", "nt:partially-applicable-chain", "nt:key-is-synonym", "nt:target-is-existing-synonym"),
     )
 ]
